@@ -105,6 +105,11 @@ impl GrammarBuilder {
             // Extract productions and nonterminals from grammar rules.
             self.start_rule_name = rules[0].name.as_ref().into();
             self.extract_productions_and_symbols(rules)?;
+        } else {
+            return err!(
+                "Grammar has no rules.".to_owned(),
+                Some(self.file.clone())
+            );
         }
 
         // Create implicit terminals from string constants.
@@ -279,6 +284,16 @@ impl GrammarBuilder {
                         .map(|assignment| -> Result<ResolvingAssignment> {
                             use rustemo_actions::Assignment::*;
                             let is_bool = matches! { assignment, BoolAssignment(_) };
+                            if match &assignment {
+                                PlainAssignment(a) | BoolAssignment(a) => a.gsymref.gsymbol.is_none(),
+                                GrammarSymbolRef(r) => r.gsymbol.is_none(),
+                            } {
+                                // Allowed by the grammar but not supported by the builder.
+                                err!(
+                                    "Parenthesized groups are not implemented.".to_owned(),
+                                    Some(self.file.clone())
+                                )?
+                            }
                             match assignment {
                                 PlainAssignment(mut assign) | BoolAssignment(mut assign) => {
                                     // Only an unnamed EMPTY is removed above. A named one
@@ -437,10 +452,13 @@ impl GrammarBuilder {
         if let Some(ref op) = gsymref.repetition_op {
             let modifiers = &op.rep_modifiers;
             let modifier = if let Some(modifiers) = modifiers {
-                assert!(
-                    modifiers.len() == 1,
-                    "Separator modifier is supported only!"
-                );
+                if modifiers.len() != 1 {
+                    return err!(
+                        "Multiple repetition modifiers are not implemented. Only a separator is supported."
+                            .to_owned(),
+                        Some(self.file.clone())
+                    );
+                }
                 Some(&modifiers[0])
             } else {
                 None
@@ -504,9 +522,15 @@ impl GrammarBuilder {
                     }
                     gsymref.gsymbol = Some(GrammarSymbol::Name(name))
                 }
-                RepetitionOperatorOp::OneOrMoreGreedy => todo!(),
-                RepetitionOperatorOp::ZeroOrMoreGreedy => todo!(),
-                RepetitionOperatorOp::OptionalGreedy => todo!(),
+                RepetitionOperatorOp::OneOrMoreGreedy
+                | RepetitionOperatorOp::ZeroOrMoreGreedy
+                | RepetitionOperatorOp::OptionalGreedy => {
+                    return err!(
+                        "Greedy repetitions are not implemented.".to_owned(),
+                        Some(self.file.clone()),
+                        ref_type.span
+                    )
+                }
             }
         }
         Ok(())
